@@ -93,6 +93,14 @@ def stepOp : List String → Option String
     let hash := Hash.ofArray b.bytes
     let back := hash.intoArray
     pure (hexStr back.toList ++ " " ++ hexStr hash.asBytes.toList)
+  | ["bin", h] => do
+    let hash ← hash? (← unhexTok h)
+    let wire := binEnc hash
+    let (back, rest) ← binDec wire
+    let (back2, rest2) ← binDec (wire ++ [0xA5])
+    let marker ← rest2.head?
+    pure (hexStr wire ++ "_" ++ hashHex back ++ "_" ++ toString rest.length ++ "_" ++ hashHex back2 ++ "_" ++ toString marker.toNat ++ "_"
+      ++ toString (rest2.length - 1) ++ "_" ++ hexStr wire ++ "_0")
   | ["json", h] => do
     let hash ← hash? (← unhexTok h)
     let j := jsonEnc hash
